@@ -243,7 +243,7 @@ def run(ctx, builddir):
                "two truncations must agree to 1e-10 (1-/2-mode gates; otherwise HARNESS error) or 1e-9 (3-/4-mode GaussianTransform, tabulated once per "
                "gate and local occupation in phase 0; otherwise that comparison is skipped and counted as ref_unconverged)")
     ctx.assume("hbar values and cutoffs are paired per box (see coverage.boxes), not a full cross product at every depth; the quick tier was shrunk to "
-               "~4 CPU-minutes on request (about 22k transitions); the previous quick boxes (112k transitions, all hbar x cutoff at the first level, "
+               "~4 CPU-minutes on request (about 16.7k box transitions + about 750 directed transitions, one-step oracles on all of them: < 5 CPU-minutes); the previous quick boxes (112k transitions, all hbar x cutoff at the first level, "
                "depth 2 from 1-photon roots on 3 modes, depth 3 on 2 modes) are part of the thorough tier")
 
     # phase 0: dense-reference tables of the >= 3-mode active gates (one expensive evaluation per gate and local occupation)
